@@ -157,6 +157,25 @@ def liesel_scenario(chk, name):
                 v = float(v)
                 dom[c.decl().name()] = (0.7 * v, 1.3 * v) if v > 0 else ((1.3 * v, 0.7 * v) if v < 0 else (-0.5, 0.5))
     enc = chk.note_enc(Enc(f"interface laws[{name}]", f, (p1_ex, s_ex, p2_ex, s_ex), sym, domain=dom))
+    # non-mutation, eager call on a state with PENDING updates (auto-update off, outdated flags set): values, flags and the entries themselves
+    # of the caller's state must be what they were
+    def pending_state_untouched():
+        mp = build()                      # a second, independently built model of the same program
+        mp.auto_update = False
+        k0 = next(k for k in strong if np.asarray(vals0[k]).dtype.kind == "f")
+        mp.nodes[k0].value = jnp.asarray(vals0[k0]) + 0.25
+        stp = mp.state
+        snap = {k: (v, bool(v.outdated), np.asarray(v.value).copy() if v.value is not None else None) for k, v in stp.items()}
+        if not any(o for _, o, _ in snap.values()):
+            return None
+        used.update_state(p1_ex, stp)
+        bad = [k for k, (obj, o, val) in snap.items() if k not in stp or stp[k] is not obj or bool(stp[k].outdated) != o
+               or (val is not None and not np.array_equal(np.asarray(stp[k].value), val, equal_nan=True))]
+        return bad + [k for k in stp if k not in snap]
+    bad = chk.guarded(f"{name}:pending-state", f"[{name}] eager update_state on a state with pending updates", pending_state_untouched)
+    if bad:
+        chk.violation(f"{name}:input-state-mutated", f"[{name}] update_state modified the caller's model state (entries {bad[:4]}: value, outdated flag or the entry object itself changed)",
+                      dict(reproduced=True, observed=dict(changed_entries=bad[:8]), note="eager call on the state of a model with auto-update off and pending updates; concrete observation"))
     # non-mutation (concrete observations around the traced calls)
     if any(mutated):
         chk.violation(f"{name}:input-state-mutated", f"[{name}] update_state modified the caller's model state dict", dict(reproduced=True, note="object identity of the state entries changed during the call"))
